@@ -670,7 +670,7 @@ def hunt3_rules(chk, repo):
     else:
         base = {"self._force_close": False, "should_close": False, "protocol.should_close": False}
         try:
-            vals = {v: bool(Evaluator({**base, "self._keepalive_timeout": v}).ev(tests[0].test)) for v in (0, 0.0, -1, 15.0, None)}
+            vals = {v: bool(Evaluator({**base, "self._keepalive_timeout": v}).ev(norm.subst(tests[0].test, tests[0]))) for v in (0, 0.0, -1, 15.0, None)}
         except (AnalysisError, TypeError) as e:
             vals = {"error": str(e)}
         if vals.get(0) and vals.get(0.0) and vals.get(-1) and vals.get(15.0) is False and vals.get(None) is False:
@@ -683,12 +683,12 @@ def hunt3_rules(chk, repo):
     if not reuse:
         chk.analysis_error("C07.release.expiry: reuse test not found in BaseConnector._get")
     else:
-        tst = norm.subst(reuse[0].test, norm.fn_defs(get.node)) if hasattr(norm, "subst") else reuse[0].test
-        conn = next(norm.raw(c) for c in ast.walk(reuse[0].test) if isinstance(c, ast.Call) and norm.raw(c.func).endswith(".is_connected"))
+        rtest = norm.subst(reuse[0].test, reuse[0])
+        conn = next(norm.raw(c) for c in ast.walk(rtest) if isinstance(c, ast.Call) and norm.raw(c.func).endswith(".is_connected"))
         try:
-            none_ok = bool(Evaluator({conn: True, "t1": 100.0, "t0": 1.0, "self._keepalive_timeout": None, "keepalive_timeout": None}).ev(reuse[0].test))
-            pos_ok = bool(Evaluator({conn: True, "t1": 100.0, "t0": 99.0, "self._keepalive_timeout": 15.0, "keepalive_timeout": 15.0}).ev(reuse[0].test))
-            old_no = not bool(Evaluator({conn: True, "t1": 100.0, "t0": 1.0, "self._keepalive_timeout": 15.0, "keepalive_timeout": 15.0}).ev(reuse[0].test))
+            none_ok = bool(Evaluator({conn: True, "t1": 100.0, "t0": 1.0, "self._keepalive_timeout": None, "keepalive_timeout": None}).ev(rtest))
+            pos_ok = bool(Evaluator({conn: True, "t1": 100.0, "t0": 99.0, "self._keepalive_timeout": 15.0, "keepalive_timeout": 15.0}).ev(rtest))
+            old_no = not bool(Evaluator({conn: True, "t1": 100.0, "t0": 1.0, "self._keepalive_timeout": 15.0, "keepalive_timeout": 15.0}).ev(rtest))
             why = ""
         except (AnalysisError, TypeError) as e:
             none_ok = pos_ok = old_no = False
